@@ -30,10 +30,36 @@ def strip(e, keep_try=False):
     return e
 
 
+def all_names(hfn):
+    """every local name bound in a function (parameters, lets, match/closure patterns)"""
+    names = set()
+    if hfn is None:
+        return names
+    for p in hfn.get('params', []):
+        names.update(H.pat_bindings(p))
+
+    def visit(n, anc):
+        k = n.get('k')
+        if k in ('slet', 'let'):
+            names.update(H.pat_bindings(n['pat']))
+        elif k == 'match':
+            for a in n['arms']:
+                names.update(H.pat_bindings(a['pat']))
+        elif k == 'closure':
+            for p in n.get('params', []):
+                names.update(H.pat_bindings(p))
+    H.walk(hfn['body'], visit)
+    return names
+
+
 class Ctx:
-    def __init__(self, facts, inits=None):
+    def __init__(self, facts, inits=None, hfn=None):
         self.facts = facts
         self.inits = inits or {}
+        # names bound in the function; a pattern variable whose name does not occur at all (the local
+        # was renamed) unifies with any local, consistently within one match attempt
+        self.names = all_names(hfn) if hfn is not None else None
+        self.env = {}
 
     def const_value(self, e):
         """numeric value of a literal, a named const path, a negated literal or a simple cast of one"""
@@ -107,7 +133,15 @@ class L(Pat):
 
     def m(self, ctx, e):
         e = strip(e)
-        return isinstance(e, dict) and e.get('k') == 'local' and e.get('name') == self.name
+        if not (isinstance(e, dict) and e.get('k') == 'local'):
+            return False
+        if ctx.names is None or self.name in ctx.names:
+            return e.get('name') == self.name
+        bound = ctx.env.get(self.name)
+        if bound is None:
+            ctx.env[self.name] = e.get('name')
+            return True
+        return bound == e.get('name')
 
     def __repr__(self):
         return 'L(%s)' % self.name
@@ -342,6 +376,7 @@ def find(ctx, root, pat):
     out = []
 
     def visit(n, anc):
+        ctx.env = {}
         if pat.m(ctx, n):
             out.append((n, anc))
     H.walk(root, visit)
